@@ -22,6 +22,63 @@ func init() {
 	})
 }
 
+// checkDynamicNullability (UNI3d): a descriptor whose result type is computed by TypeFn and whose
+// body can return NULL must compute a nullable type on every successful TypeFn path.
+func checkDynamicNullability(c *core.Ctx) {
+	t := loadFunctions(c, "UNI3")
+	if t == nil {
+		return
+	}
+	for _, d := range t.descs {
+		if d.TypeFn == nil || d.Function == nil {
+			continue
+		}
+		if _, static := t.outputKinds(d); static {
+			continue
+		}
+		// does the body return NULL without an error?
+		returnsNull := false
+		for _, rs := range returnsOfLit(d.Function) {
+			if len(rs.Results) == 2 && core.IsNilIdent(t.info, rs.Results[1]) {
+				s := core.ExprStr(rs.Results[0])
+				if s == "octosql.NewNull()" || s == "octosql.ZeroValue" || s == "octosql.Value{}" {
+					returnsNull = true
+				}
+			}
+		}
+		key := "functions." + d.Key() + "/dynamic result type"
+		if !returnsNull {
+			c.OK("UNI3", key, d.TypeFn.Pos(), 1, "body never returns NULL")
+			continue
+		}
+		in := &absint.Interp{Info: t.info, Prog: c.Prog}
+		in.Hooks.Call = func(st *absint.State, call *ast.CallExpr, callee string, recv absint.Val, args []absint.Val) (absint.Val, bool) {
+			if callee == "octosql.TypeSum" && len(args) == 2 {
+				return absint.S("TypeSum(" + args[0].Canon() + "," + args[1].Canon() + ")"), true
+			}
+			return nil, false
+		}
+		outs, err := runLit(in, d.TypeFn, nil, "")
+		if err != nil {
+			c.Unknown("UNI3", key, d.TypeFn.Pos(), err.Error())
+			continue
+		}
+		bad := ""
+		n := 0
+		for _, o := range outs {
+			if o.Kind != "return" || len(o.Values) != 2 || !absint.IsTrue(o.Values[1]) {
+				continue
+			}
+			n++
+			ty := o.Values[0].Canon()
+			if !strings.Contains(ty, "octosql.Null") {
+				bad = "the function body can return NULL, but a successful TypeFn path computes the result type " + ty + ", which does not admit NULL"
+			}
+		}
+		c.Decide(bad == "" && n > 0, "UNI3", key, d.TypeFn.Pos(), len(outs), "every computed result type admits NULL", bad)
+	}
+}
+
 func runC08(c *core.Ctx) {
 	ids := typeIDs(c.Prog)
 	c.Rule("UNI3", "function bodies construct values of the declared result type")
@@ -34,6 +91,8 @@ func runC08(c *core.Ctx) {
 	checkAggregateOutputTypes(c)
 	checkStrictMirror(c)
 	checkAssertionSites(c)
+	checkAssertionFlow(c)
+	checkDynamicNullability(c)
 	checkAssertionRuntime(c, ids)
 	checkLoopRefs(c, "LOOPREF", []string{"octosql", "logical", "physical", "execution", "functions", "aggregates", "optimizer"})
 }
@@ -438,5 +497,164 @@ func checkLoopRefs(c *core.Ctx, rule string, pkgs []string) {
 		c.Unknown(rule, "<loops>", 0, "too few loops analysed")
 	} else {
 		c.OK(rule, "<all loops>", 0, n, fmt.Sprintf("%d loops: no pointer to a loop variable escapes, other than the reported ones", n))
+	}
+}
+
+// checkAssertionFlow (ASSERT, flow-sensitive): the code that builds a runtime TypeAssertion is
+// interpreted and the constructed expression inspected: its static type must be the asserted
+// target type intersected with the inner expression's type — with the values the variables hold
+// at the point of construction, not merely the same variable names.
+func checkAssertionFlow(c *core.Ctx) {
+	p := c.Prog
+	maybe := lookupConst(p, "octosql", "TypeRelationMaybe")
+	taConst := lookupConst(p, "physical", "ExpressionTypeTypeAssertion")
+	type site struct {
+		fn     string
+		strict bool // vary descriptor.Strict
+		needNullable bool
+	}
+	for _, s := range []site{{"(*FunctionExpression).Typecheck", true, false}, {"(*GroupBy).Typecheck", false, true}, {"TypecheckExpression", false, false}} {
+		fn := p.Func("logical", s.fn)
+		key := "logical." + s.fn + "/constructed assertion"
+		if fn == nil {
+			c.Unknown("ASSERT", key, 0, "anchor not found")
+			continue
+		}
+		info := fn.Info()
+		// the literal and its innermost enclosing loop
+		var unit ast.Stmt
+		found := false
+		core.WalkStack(fn.Decl.Body, func(nd ast.Node, stack []ast.Node) bool {
+			cl, ok := nd.(*ast.CompositeLit)
+			if !ok || found {
+				return true
+			}
+			isTA := false
+			for _, el := range cl.Elts {
+				if kv, ok := el.(*ast.KeyValueExpr); ok && core.ExprStr(kv.Key) == "ExpressionType" && strings.HasSuffix(core.ExprStr(kv.Value), "ExpressionTypeTypeAssertion") {
+					isTA = true
+				}
+			}
+			if !isTA {
+				return true
+			}
+			found = true
+			for i := len(stack) - 1; i >= 0; i-- {
+				switch x := stack[i].(type) {
+				case *ast.ForStmt:
+					unit = x
+				case *ast.RangeStmt:
+					unit = x
+				}
+				if unit != nil {
+					break
+				}
+			}
+			return true
+		})
+		if !found {
+			c.Unknown("ASSERT", key, fn.Decl.Pos(), "no TypeAssertion literal found")
+			continue
+		}
+		stricts := []bool{false}
+		if s.strict {
+			stricts = []bool{false, true}
+		}
+		for _, strict := range stricts {
+			strict := strict
+			in := newInterp(p, fn)
+			in.MaxPaths = 8000
+			in.Hooks.Loop = func(st *absint.State, loop ast.Stmt) *absint.LoopSpec {
+				return &absint.LoopSpec{Cases: []string{"it"}, MaxIter: 1, RefStep: func(ref, cs string) string { return ref }}
+			}
+			in.Hooks.Field = func(st *absint.State, base absint.Val, sel string) (absint.Val, bool) {
+				if sel == "Strict" {
+					return absint.Bool(strict), true
+				}
+				return nil, false
+			}
+			in.Hooks.Index = func(st *absint.State, x, i absint.Val) (absint.Val, bool) {
+				if x.Canon() == "isMaybe" {
+					return absint.Bool(true), true
+				}
+				return nil, false
+			}
+			in.Hooks.Call = func(st *absint.State, call *ast.CallExpr, callee string, recv absint.Val, args []absint.Val) (absint.Val, bool) {
+				switch callee {
+				case "octosql.Type.Is":
+					return maybe, true
+				case "logical.Expression.Typecheck":
+					return absint.S("EXPR"), true
+				}
+				return nil, false
+			}
+			var outs []*absint.Outcome
+			var err error
+			if unit != nil {
+				outs, err = in.Run(&ast.FuncType{Params: &ast.FieldList{}}, nil, &ast.BlockStmt{List: []ast.Stmt{unit}}, nil, "")
+			} else {
+				outs, err = runDecl(in, fn, nil, "")
+			}
+			ckey := key
+			if s.strict {
+				ckey = fmt.Sprintf("%s/Strict=%v", key, strict)
+			}
+			if err != nil {
+				c.Unknown("ASSERT", ckey, fn.Decl.Pos(), err.Error())
+				continue
+			}
+			bad := ""
+			seen := 0
+			for _, o := range outs {
+				var objs []absint.Val
+				for _, e := range o.Events {
+					if strings.HasPrefix(e.Name, "store ") && len(e.Args) == 1 {
+						objs = append(objs, e.Args[0])
+					}
+				}
+				if o.Kind == "return" {
+					objs = append(objs, o.Values...)
+				}
+				for _, ob := range objs {
+					et := o.Field(ob, "ExpressionType")
+					if et == nil || et.Canon() != taConst.Canon() {
+						continue
+					}
+					seen++
+					ta := o.Field(ob, "TypeAssertion")
+					T := o.Field(ta, "TargetType")
+					E := o.Field(ta, "Expression")
+					Y := o.Field(ob, "Type")
+					if T == nil || E == nil || Y == nil {
+						bad = "incomplete assertion expression"
+						continue
+					}
+					t, y, e := T.Canon(), Y.Canon(), E.Canon()+".Type"
+					okType := y == t || y == "*octosql.TypeIntersection("+t+","+e+")" || y == "*octosql.TypeIntersection("+e+","+t+")"
+					if !okType {
+						bad = fmt.Sprintf("at the point of construction the runtime assertion admits %s but the static type recorded is %s; it must be the intersection of exactly that target with the expression's type (values pass the assertion that the static type — and hence the NULL check and the reported column type — does not account for)", t, y)
+					}
+					if s.strict {
+						arg := strings.TrimSuffix(strings.TrimSuffix(t, ",octosql.Null)"), ")")
+						_ = arg
+						nullable := strings.Contains(t, "octosql.Null")
+						if strict && !nullable {
+							bad = "a Strict function's asserted target must admit NULL (the NULL check runs after the assertion); target is " + t
+						}
+						if !strict && nullable {
+							bad = "a non-strict function's asserted target must be the declared argument type; target is " + t
+						}
+					}
+					if s.needNullable && !strings.Contains(t, "octosql.Null") {
+						bad = "aggregate arguments may be NULL (they are skipped): the asserted target must admit NULL; target is " + t
+					}
+				}
+			}
+			if bad == "" && seen == 0 {
+				bad = "the construction of the assertion was not reached"
+			}
+			c.Decide(bad == "", "ASSERT", ckey, fn.Decl.Pos(), len(outs), "static type = target ∩ expression type at construction", bad)
+		}
+		_ = info
 	}
 }
